@@ -570,6 +570,14 @@ def curated():
     out = {}
     for k, (spec, precs) in CURATED.items():
         out[k] = from_text(spec, precs, start='S' if k == 'two_paths' else None)
+    # a state (after x) whose only terminal column with a candidate is settled as an error by %nonassoc (shift t against the
+    # empty rule with %prec t), so its row of the action part is all error codes and everything it stores explicitly is a
+    # goto: the row with the most explicit cells, placed first by the packing (C05: the hypothesis of
+    # C05_offsets_from_actions does not hold for it, the condition on the offset vector must hold all the same)
+    g = from_text('S: A t ; A: x B ; B: P | Q | R | E ; P: t p ; Q: t q ; R: t r ; E: ', (('nonassoc', ['t']),))
+    tn = [i for i, t in enumerate(g['terms']) if t['name'] == 't'][0]
+    g['rules'][-1]['prec'] = tn
+    out['all_error_row'] = g
     return out
 
 
